@@ -117,7 +117,7 @@ impl Property for C06 {
          oracle = Instance::evaluate of each state alone (tied to the reference model by C05) + key-set and re-grouping invariance; non-trivial = >=2 ids and (shared entry or duplicate state across entries or equal values from different states); distinct = sha256(instance, pairs, grouping)"
     }
     fn required_labels(&self) -> Vec<String> {
-        ["multi-id-entry", "dup-state-separate-entries", "value-collision", "omits-irrelevant", "omits-different-subsets", "add_sample", "n>=4", "dependency", "removed-constraint", "fixed-variable", "state-has-stale-value-of-fixed-variable"].iter().map(|s| s.to_string()).collect()
+        ["multi-id-entry", "dup-state-separate-entries", "value-collision", "omits-irrelevant", "omits-different-subsets", "add_sample", "n>=4", "dependency", "removed-constraint", "fixed-variable", "state-has-stale-value-of-fixed-variable", "unset-oneof"].iter().map(|s| s.to_string()).collect()
     }
     fn cases(&self, tier: Tier) -> usize {
         match tier {
@@ -144,6 +144,8 @@ impl Property for C06 {
         let stale_mask = if t.p(96) { t.byte() } else { 0 };
         let mut cfg = InstCfg::new(regime);
         cfg.tolerance_candidates = true;
+        // a present function message whose oneof is unset evaluates to zero (C01) -- for every sample alike
+        cfg.func.allow_unset = true;
         let mut gi = gen_instance(t, &cfg, ctx);
         // sample ids
         let mut ids: Vec<u64> = vec![];
